@@ -55,7 +55,52 @@ EXPLORE = {'sim': (sim_cases(), execute_sim), 'real': (rp.c09_cases(), rp.execut
            'worker': (c03.worker_cases(), c03.execute_worker)}
 
 
+def memlimit_cases():
+    from hypothesis import strategies as st
+    return st.fixed_dictionaries({
+        'n': st.integers(1, 8), 'quota': st.sampled_from([None, 3, 10]),
+        'synack': st.booleans()})
+
+
+def execute_memlimit(case):
+    """a worker whose memory limit is exceeded after every task (limit 1 KiB):
+    it must finish that task (ACK + READY), exit with the recycle status and
+    leave the rest unread - nothing lost, duplicated or failed"""
+    import billiard.pool as bp
+    from engines import targets_c12, workerloop
+    from vlib.core import bad, ok
+
+    class LimitedWorker(bp.Worker):
+        def __init__(self, *a, **kw):
+            kw['max_memory_per_child'] = 1
+            bp.Worker.__init__(self, *a, **kw)
+    n = case['n']
+    payload = [(100 + k, None, targets_c12.task, (k, {'kind': 'ret', 'value': k}),
+                {}) for k in range(n)]
+    res = workerloop.run(payload, quota=case['quota'],
+                         synack=[True] * n if case['synack'] else None,
+                         count_ready=True, timeout=20.0, worker_cls=LimitedWorker)
+    kinds = [m.kind for m in res.messages]
+    if res.outcome != ('return', 0x9B):
+        return bad('C09/memlimit-status', 'loop ended with %r' % (res.outcome,))
+    if kinds != ['ACK', 'READY'] or not res.messages[1].ok or \
+            res.messages[1].value != 0 or res.messages[1].job != 100:
+        return bad('C09/memlimit-result', 'stream %r' % (res.messages,))
+    if [w for w in res.witness if isinstance(w, int)] != [0]:
+        return bad('C09/memlimit-executed', 'executed %r' % (res.witness,))
+    left = [m for m in res.leftover_inq if m is not None]
+    if len(left) != n - 1:
+        return bad('C09/memlimit-overread', '%d tasks left unread of %d' % (
+            len(left), n - 1))
+    return ok(n >= 2, ['memlimit'])
+
+
+PARTS['memlimit'] = execute_memlimit
+
+
 def run(ctx):
+    ctx.explore('memlimit', memlimit_cases(), execute_memlimit,
+                n=ctx.pick(10, 200))
     ctx.explore('sim', sim_cases(), execute_sim, n=ctx.pick(250, 25000))
     # the quota is enforced by the worker loop: real workloop, every task class
     ctx.explore('worker', c03.worker_cases(), c03.execute_worker,
